@@ -58,10 +58,21 @@ func violatedNames(h []hypItem) string {
 	return "viol:" + strings.Join(v, ",")
 }
 
+// noOtherLowerMapsTo: no lower-case rune with an upper case of its own has c as that upper case
+// (lowerOf[c] lists every lower-case r with ToUpper(r) == c; r == c is a rune that is its own upper case).
+func noOtherLowerMapsTo(c rune) bool {
+	for _, r := range lowerOf[c] {
+		if r != c {
+			return false
+		}
+	}
+	return true
+}
+
 func hypPlain(c rune, withText bool) []hypItem {
 	h := []hypItem{{"validRune", validRune(c)}, {"notDEL", c != 127}, {"notUpper", !unicode.IsUpper(c)}, {"notFunctional", !functionalU(c)}}
 	if !withText {
-		h = append(h, hypItem{"notFFFD", c != 0xFFFD}, hypItem{"noLowerMapsTo", len(lowerOf[c]) == 0})
+		h = append(h, hypItem{"notFFFD", c != 0xFFFD}, hypItem{"noLowerMapsTo", noOtherLowerMapsTo(c)})
 	}
 	return h
 }
@@ -70,7 +81,7 @@ func hypShift(c, C rune, withText bool) []hypItem {
 	h := []hypItem{{"validRune", validRune(c) && validRune(C)}, {"upperC", unicode.IsUpper(C)}, {"toLowerC", unicode.ToLower(C) == c},
 		{"notDEL", c != 127}, {"notFunctional", !functionalU(c)}}
 	if !withText {
-		h = append(h, hypItem{"isPrint", unicode.IsPrint(c)}, hypItem{"toUpperc", unicode.ToUpper(c) == C})
+		h = append(h, hypItem{"isPrint", unicode.IsPrint(c)}, hypItem{"isPrintC", unicode.IsPrint(C)})
 	}
 	return h
 }
